@@ -44,7 +44,9 @@ impl AtomicBucketList {
 
     pub fn push_front(&self, bucket: BucketRef) {
         let bucket_ptr = bucket.as_ptr();
+        verif_point!(PRE_HEAD_LOAD, 0, 0);
         let mut head_ptr = self.head.load(Ordering::Acquire);
+        verif_point!(OBS_HEAD_LOAD, head_ptr as usize, 0);
 
         loop {
             // The new bucket will become the head of the list, so we rewrite its next
@@ -53,6 +55,7 @@ impl AtomicBucketList {
                 addr_of_mut!((*bucket_ptr).next).write(AtomicPtr::new(head_ptr));
             }
 
+            verif_point!(PRE_HEAD_CAS, head_ptr as usize, bucket_ptr as usize);
             // Replace the old head pointer with the pointer to our new bucket
             let exchange = self.head.compare_exchange_weak(
                 head_ptr,
@@ -63,10 +66,12 @@ impl AtomicBucketList {
 
             // The exchange failed, set the head pointer to the new head node
             if let Err(new_head) = exchange {
+                verif_point!(OBS_HEAD_CAS, 0, new_head as usize);
                 head_ptr = new_head;
 
             // Otherwise we succeeded swapping the pointers and are done
             } else {
+                verif_point!(OBS_HEAD_CAS, 1, bucket_ptr as usize);
                 break;
             }
         }
@@ -107,7 +112,9 @@ impl<'a> Iterator for AtomicBucketIter<'a> {
     type Item = BucketRef;
 
     fn next(&mut self) -> Option<Self::Item> {
+        verif_point!(PRE_ITER_LOAD, 0, 0);
         let current = self.current.load(Ordering::Acquire);
+        verif_point!(OBS_ITER_LOAD, current as usize, 0);
 
         NonNull::new(current).map(|current| {
             // Safety: `current` is valid and not null
@@ -255,6 +262,18 @@ impl BucketRef {
         unsafe { (*self.as_ptr()).capacity }
     }
 
+    /// Read-only view of the bucket's layout
+    #[cfg(lasso_verif)]
+    pub(crate) fn verif_audit(&self) -> crate::verif::BlockAudit {
+        crate::verif::BlockAudit {
+            block: self.as_ptr() as usize,
+            // Safety: Offsetting by zero stays within the bucket
+            data: unsafe { self.slice_mut(0) } as usize,
+            capacity: self.capacity().get(),
+            used: self.length().load(Ordering::Acquire),
+        }
+    }
+
     /// Get a slice pointer to the specified data range
     #[inline]
     pub unsafe fn slice_mut(&self, start: usize) -> *mut u8 {
@@ -268,10 +287,13 @@ impl BucketRef {
         let capacity = self.capacity().get();
 
         // TODO: Add backoff to this loop so we don't thrash it
+        verif_point!(PRE_LEN_LOAD, self.as_ptr() as usize, 0);
         let mut len = length.load(Ordering::Acquire);
+        verif_point!(OBS_LEN_LOAD, self.as_ptr() as usize, len);
         for _ in 0..100 {
             let new_length = len + additional;
             if new_length <= capacity {
+                verif_point!(PRE_LEN_CAS, len, new_length);
                 match length.compare_exchange_weak(
                     len,
                     new_length,
@@ -279,10 +301,12 @@ impl BucketRef {
                     Ordering::Acquire,
                 ) {
                     Ok(_) => {
+                        verif_point!(OBS_LEN_CAS, 1, len);
                         debug_assert!(len < capacity && len + additional <= capacity);
                         return Ok(len);
                     }
                     Err(loaded) => {
+                        verif_point!(OBS_LEN_CAS, 0, loaded);
                         hint::spin_loop();
                         len = loaded;
                     }
